@@ -179,16 +179,44 @@ def make_evaluator(name, n, order, nthreads, pools):
     raise ValueError(name)
 
 
-def run_evaluator_case(name, xs, lf, order, nthreads, pools, token, form="list", job_name=None):
+DUPS = ("same-adjacent", "same-apart", "equal-values")
+
+
+def dup_xs(rng, n, dup):
+    """job numbers for a batch of n >= 2 with repeats: the same number twice next to each other / first and last /
+    several times"""
+    base = rng.sample(range(1, 500), n)
+    if dup == "same-adjacent":
+        base[1] = base[0]
+    elif dup == "same-apart":
+        base[-1] = base[0]
+    elif dup == "equal-values":
+        base[-1] = base[0]
+        if n >= 3:
+            base[1] = base[0]
+    return base
+
+
+def build_jobs(xs, delays, token, dup):
+    """dup None: one DelayJob per position.  same-*: ONE job object per distinct number, so a repeated number is the
+    same object listed twice.  equal-values: distinct ValueJob objects that compare/hash equal when their numbers agree."""
+    if dup in ("same-adjacent", "same-apart"):
+        objs = {}
+        return [objs.setdefault(x, JB.DelayJob(x, delays[i], token)) for i, x in enumerate(xs)]
+    cls = JB.ValueJob if dup == "equal-values" else JB.DelayJob
+    return [cls(x, delays[i], token) for i, x in enumerate(xs)]
+
+
+def run_evaluator_case(name, xs, lf, order, nthreads, pools, token, form="list", job_name=None, dup=None):
     """Evaluate jobs xs through the named evaluator; delays make job order[0] finish first, order[-1] last.
     The batch is handed over in the iterable form `form` (list, tuple, iterator, generator, custom one-shot).
-    Returns (jobs, results, observed completion order as indices)."""
+    Returns (jobs, results, observed completion order as indices or None when it cannot be told)."""
     n = len(xs)
     rank = {i: k for k, i in enumerate(order)}
     scripted = name.endswith("-scripted") or name == "map-serial"
     JB.COMPLETION_LOG.clear()
     unit = JB.UNIT * (2.5 if name in ("processpool", "multiprocessing") else 1.0)
-    jobs = [JB.DelayJob(x, 0.0 if scripted else unit * (1 + rank[i]), token) for i, x in enumerate(xs)]
+    jobs = build_jobs(xs, [0.0 if scripted else unit * (1 + rank[i]) for i in range(n)], token, dup)
     ev, cleanup = make_evaluator(name, n, order, nthreads, pools)
     try:
         kw = {} if lf is None else {"log_frequency": lf}
@@ -198,7 +226,11 @@ def run_evaluator_case(name, xs, lf, order, nthreads, pools, token, form="list",
     finally:
         cleanup()
     results = list(results)
-    if name in SAME_PROCESS:
+    if name.endswith("-scripted"):
+        comp = list(order)                     # the scripted pool completes its futures in exactly this order
+    elif dup is not None:
+        comp = None
+    elif name in SAME_PROCESS:
         comp = [x for (tk, x) in JB.COMPLETION_LOG if tk == token]
         comp = [xs.index(x) for x in comp]
     else:
@@ -207,15 +239,15 @@ def run_evaluator_case(name, xs, lf, order, nthreads, pools, token, form="list",
     return jobs, results, comp
 
 
-def oracle_evaluator(ctx, name, xs, lf, order, nthreads, jobs, results, form="list", job_name=None):
+def oracle_evaluator(ctx, name, xs, lf, order, nthreads, jobs, results, form="list", job_name=None, dup=None):
     rp = {"kind": "evaluator", "evaluator": name, "xs": list(xs), "log_frequency": lf, "order": list(order), "nthreads": nthreads,
-          "form": form, "job_name": job_name}
+          "form": form, "job_name": job_name, "dup": dup}
     got = [getattr(r, "x", None) for r in results]
     if len(results) != len(xs):
-        ctx.violation("evaluator-result-count:" + name, "%s returned %d results (jobs %r) for the %d jobs %r passed as a %s (log_frequency=%r, job_name=%r)" % (
-            name, len(results), got, len(xs), list(xs), form, lf, job_name), rp)
+        ctx.violation("evaluator-result-count:" + name, "%s returned %d results (jobs %r) for the %d jobs %r passed as a %s (log_frequency=%r, job_name=%r, repeats: %s)" % (
+            name, len(results), got, len(xs), list(xs), form, lf, job_name, dup or "none"), rp)
         return False
-    if name in SAME_PROCESS and any(j.runs != 1 for j in jobs):
+    if name in SAME_PROCESS and any(j.runs != sum(1 for o in jobs if o is j) for j in jobs):
         ctx.violation("evaluator-job-not-run-exactly-once:" + name, "%s ran the jobs %r times (batch passed as a %s, log_frequency=%r, job_name=%r)" % (
             name, [j.runs for j in jobs], form, lf, job_name), rp)
         return False
@@ -268,17 +300,27 @@ def evaluator_plan(ctx):
     # every evaluator x every iterable form the API accepts x with/without log_frequency x with/without job_name
     allnames = ("map-serial", "map-executor", "pool-threadpool", "submit-threads", "apply-threads", "submit-scripted", "apply-scripted",
                 "processpool", "multiprocessing")
-    plan = [e + (rng.choice(JB.FORMS), rng.choice([None, None, "named"])) for e in plan]
+    plan = [e + (rng.choice(JB.FORMS), rng.choice([None, None, "named"]), None) for e in plan]
     for name in allnames:
         proc = name in ("processpool", "multiprocessing")
         for n in ctx.scale((1, 3), (0, 1, 2, 3, 5)):
             for lf in ctx.scale((None, 2), (None, 1, 2, n + 1)):
                 for form in JB.FORMS:
                     for jn in (None, "named"):
-                        if proc and not ctx.thorough and (jn is not None and lf is None):
-                            continue
+                        if not ctx.thorough and ((jn is not None and lf is None) or (proc and n > 1 and form in ("tuple", "iter"))):
+                            continue        # job_name only matters on the progress-log path
                         order = list(reversed(range(n)))
-                        plan.append((name, n, lf, order, 2 if proc else n + 1, form, jn))
+                        plan.append((name, n, lf, order, 2 if proc else n + 1, form, jn, None))
+    # every evaluator: the same job object listed twice (adjacent / first and last), equal-valued jobs (value-based __eq__/__hash__)
+    for name in allnames:
+        proc = name in ("processpool", "multiprocessing")
+        for n in ctx.scale((2, 4), (2, 3, 4, 6)):
+            for dup in DUPS:
+                for lf in ctx.scale((None, 2), (None, 1, 2, n + 1)):
+                    order = list(reversed(range(n)))
+                    if not proc and rng.random() < 0.4:
+                        rng.shuffle(order)
+                    plan.append((name, n, lf, order, 2 if proc else n + 1, rng.choice(JB.FORMS), None, dup))
     return plan
 
 
@@ -289,20 +331,26 @@ def part_evaluators(ctx, pools):
     reordered = 0
     t0 = time.time()
     forms = {}
-    for k, (name, n, lf, order, nthreads, form, jn) in enumerate(evaluator_plan(ctx)):
-        xs = rng.sample(range(1, 500), n)
+    dups = {}
+    for k, (name, n, lf, order, nthreads, form, jn, dup) in enumerate(evaluator_plan(ctx)):
+        xs = rng.sample(range(1, 500), n) if dup is None else dup_xs(rng, n, dup)
         token = ("ev", k)
         try:
-            jobs, results, comp = run_evaluator_case(name, xs, lf, order, nthreads, pools, token, form, jn)
+            jobs, results, comp = run_evaluator_case(name, xs, lf, order, nthreads, pools, token, form, jn, dup)
         except Exception as e:  # an evaluator that raises on a legal batch fails "one result per job"
             ctx.violation("evaluator-raised:" + name, "%s raised %r on %d jobs passed as a %s, log_frequency=%r, job_name=%r, order %r" % (name, e, n, form, lf, jn, order),
-                          {"kind": "evaluator", "evaluator": name, "xs": xs, "log_frequency": lf, "order": order, "nthreads": nthreads, "form": form, "job_name": jn})
+                          {"kind": "evaluator", "evaluator": name, "xs": xs, "log_frequency": lf, "order": order, "nthreads": nthreads, "form": form, "job_name": jn, "dup": dup})
             continue
         ctx.count()
         dist[name] = dist.get(name, 0) + 1
         forms[form] = forms.get(form, 0) + 1
-        ok = oracle_evaluator(ctx, name, xs, lf, order, nthreads, jobs, results, form, jn)
-        if comp != sorted(comp):
+        ok = oracle_evaluator(ctx, name, xs, lf, order, nthreads, jobs, results, form, jn, dup)
+        if dup is not None:
+            dups[dup] = dups.get(dup, 0) + 1
+            ctx.mark(("evaluator-repeats", name, dup, n, repr(lf)))
+        if comp is None:
+            comp = [-1]
+        elif comp != sorted(comp):
             reordered += 1
             ctx.mark(("evaluator", name, n, repr(lf), tuple(comp)))
         vals = [r.value if getattr(r, "value", None) is not None else -1 for r in results]
@@ -319,6 +367,7 @@ def part_evaluators(ctx, pools):
                        "model and implementation differ on %r; first: %s" % (bad[:10], lits[bad[0]] if bad else ""))
     ctx.coverage["evaluator_cases"] = dist
     ctx.coverage["evaluator_batch_forms"] = forms
+    ctx.coverage["evaluator_batches_with_repeated_jobs"] = dups
     ctx.coverage["evaluator_cases_with_out_of_order_completion"] = reordered
     ctx.coverage["evaluators_s"] = round(time.time() - t0, 1)
 
@@ -512,7 +561,7 @@ def part_mpi(ctx):
         return ok
 
     # (a) random schedules, 1..N workers, 2-3 consecutive batches on one pool, both branches
-    for _ in range(ctx.scale(220, 4000)):
+    for _ in range(ctx.scale(160, 4000)):
         W = rng.randrange(1, ctx.scale(5, 7))
         lb = rng.random() < 0.6
         batches = [(rng.choice([1, 1, 2, 3]), [rng.randrange(-5, 60) for _ in range(batch_sizes(rng, W))]) for _ in range(rng.choice([1, 2, 2, 3]))]
@@ -815,7 +864,7 @@ def run(ctx):
                 "futures pool x every log_frequency in {None,1,2,3,n,n+1,0,-1}, random permutations beyond, real thread/process pools with later-jobs-first delays, batch sizes "
                 "0,1,<workers,>workers; MPIPool on the simulated mpi4py: random schedules (1-6 workers, 1-3 consecutive batches, both branches, eager and scheduled sends) and "
                 "systematic enumeration (all interleavings of receive completions for small worker/task counts, sleep-set reduced — one per Mazurkiewicz trace — beyond; see coverage.mpi); "
-                "every evaluator x every iterable form of the batch (list, tuple, iterator, generator expression, custom one-shot iterable) x with/without log_frequency x with/without job_name; evaluate_all on batches with already-evaluated members under in-place and copying evaluators; experiment() with declaration lists mixing bare types, (type,), (type, kwargs), (type, kwargs, name) in different orders (algorithms whose result reveals type, constructor configuration, problem and replicate) under 8-9 evaluators. "
+                "every evaluator x batches listing the same job object twice (adjacent / first and last) and several equal-valued jobs (value-based __eq__/__hash__); every evaluator x every iterable form of the batch (list, tuple, iterator, generator expression, custom one-shot iterable) x with/without log_frequency x with/without job_name; evaluate_all on batches with already-evaluated members under in-place and copying evaluators; experiment() with declaration lists mixing bare types, (type,), (type, kwargs), (type, kwargs, name) in different orders (algorithms whose result reveals type, constructor configuration, problem and replicate) under 8-9 evaluators. "
                 "non-trivial = a case in which completion/arrival order differs from job order (evaluators, MPI), several chunks plus a trailing partial chunk (_chunks), a batch of >= 2 "
                 "solutions with an unevaluated member (pairing), an experiment configuration; distinct by full input incl. the event trace")
     ctx.assumptions.append("the simulated mpi4py (buffered sends, per-pair FIFO, first-match receives) stands in for an MPI library; tasks do not raise")
@@ -837,9 +886,9 @@ def replay(ctx, data):
             if name == "pool-mpi":
                 return run(ctx)
             jobs, results, comp = run_evaluator_case(name, rp["xs"], rp["log_frequency"], rp["order"], rp["nthreads"], pools, ("replay", 0),
-                                                     rp.get("form", "list"), rp.get("job_name"))
+                                                     rp.get("form", "list"), rp.get("job_name"), rp.get("dup"))
             ctx.count()
-            oracle_evaluator(ctx, name, rp["xs"], rp["log_frequency"], rp["order"], rp["nthreads"], jobs, results, rp.get("form", "list"), rp.get("job_name"))
+            oracle_evaluator(ctx, name, rp["xs"], rp["log_frequency"], rp["order"], rp["nthreads"], jobs, results, rp.get("form", "list"), rp.get("job_name"), rp.get("dup"))
         elif kind == "pairing":
             nun = sum(1 for p in rp["pre"] if p is None)
             ev, cleanup = make_evaluator(rp["evaluator"], nun, rp["order"], max(2, nun + 1), pools)
